@@ -15,32 +15,32 @@ type Finding struct {
 
 // Stats is what the oracle observed in one case (for the evidence file).
 type Stats struct {
-	SentCommitted  int `json:"sent_committed"`
-	RecvCommitted  int `json:"recv_committed"`
-	Links          int `json:"links"`
-	SenderAborts   int `json:"sender_aborts"`
-	SenderAbortsAS int `json:"sender_aborts_after_send"` // aborted attempts that had sent >= 1 message
-	SenderPlanned  int `json:"sender_planned_faults"`
-	SenderNatural  int `json:"sender_natural_aborts"` // aborts the mailboxes caused themselves (timeouts, full buffers)
-	RecvAborts     int `json:"recv_aborts"`
-	RecvAbortsAR   int `json:"recv_aborts_after_receive"` // aborted attempts that had obtained >= 1 message
-	Redelivered    int `json:"redelivered_reads"`         // reads that had to (and did) replay an aborted attempt's reads
-	ReadTimeouts   int `json:"read_timeouts"`
-	LenReads       int `json:"len_reads"`
-	LenPositive    int `json:"len_reads_positive"`
-	Batches        int `json:"tcp_batches_checked"`
-	MultiBatches   int `json:"tcp_batches_with_2plus_messages"`
-	Redials        int `json:"redials"`
-	CommitNetErr   int `json:"commit_phase_network_errors"`
-	PreNetErr      int `json:"precommit_phase_network_errors"`
-	WriteNetErr    int `json:"write_network_errors"`
-	DialFail       int `json:"dial_failures"`
-	ProxyDelays    int `json:"proxy_delays"`
-	H6Sleeps       int `json:"h6_sleeps"`
-	H6Active       bool `json:"h6_active"`
-	Pauses         int `json:"receiver_pauses"`
-	DupBatches     int `json:"duplicated_batches"`
-	Events         int `json:"events"`
+	SentCommitted  int    `json:"sent_committed"`
+	RecvCommitted  int    `json:"recv_committed"`
+	Links          int    `json:"links"`
+	SenderAborts   int    `json:"sender_aborts"`
+	SenderAbortsAS int    `json:"sender_aborts_after_send"` // aborted attempts that had sent >= 1 message
+	SenderPlanned  int    `json:"sender_planned_faults"`
+	SenderNatural  int    `json:"sender_natural_aborts"` // aborts the mailboxes caused themselves (timeouts, full buffers)
+	RecvAborts     int    `json:"recv_aborts"`
+	RecvAbortsAR   int    `json:"recv_aborts_after_receive"` // aborted attempts that had obtained >= 1 message
+	Redelivered    int    `json:"redelivered_reads"`         // reads that had to (and did) replay an aborted attempt's reads
+	ReadTimeouts   int    `json:"read_timeouts"`
+	LenReads       int    `json:"len_reads"`
+	LenPositive    int    `json:"len_reads_positive"`
+	Batches        int    `json:"tcp_batches_checked"`
+	MultiBatches   int    `json:"tcp_batches_with_2plus_messages"`
+	Redials        int    `json:"redials"`
+	CommitNetErr   int    `json:"commit_phase_network_errors"`
+	PreNetErr      int    `json:"precommit_phase_network_errors"`
+	WriteNetErr    int    `json:"write_network_errors"`
+	DialFail       int    `json:"dial_failures"`
+	ProxyDelays    int    `json:"proxy_delays"`
+	H6Sleeps       int    `json:"h6_sleeps"`
+	H6Active       bool   `json:"h6_active"`
+	Pauses         int    `json:"receiver_pauses"`
+	DupBatches     int    `json:"duplicated_batches"`
+	Events         int    `json:"events"`
 	OrderSig       string `json:"-"`
 	AbortSig       string `json:"-"`
 }
@@ -59,6 +59,12 @@ type lenRec struct {
 }
 
 type batchID struct{ S, Sec, Att, R int }
+
+type closeEv struct {
+	Seq     int64  `json:"seq"`
+	Phase   string `json:"phase"`
+	Timeout bool   `json:"timeout"`
+}
 
 const inf = int64(1) << 62
 
@@ -108,25 +114,35 @@ func judge(c *Case, evs []Ev) (fs []Finding, st Stats, conclusive bool, problems
 	type linkEv struct {
 		seq     int64
 		timeout bool
+		desync  bool // the commit ack could not be decoded (acks out of step) or the connection was closed under Commit's feet: another goroutine uses the connection
 	}
 	commitErrs := map[string][]linkEv{}
+	closes := map[string][]closeEv{} // per link: every time the sender itself closed the link's connection after an error
 	accepts := map[string][]int64{}
 
 	for _, e := range evs {
 		switch {
 		case e.K == "end":
 			ended = true
+		case e.K == "overrun" || e.K == "overflow":
+			problems = append(problems, "runaway case stopped early ("+e.K+")")
 		case e.K == "quiesce":
 			quiesced, pxIdle = true, e.N == 1
 		case e.K == "log":
 			switch e.Cls {
 			case "commit-neterr":
 				st.CommitNetErr++
-				commitErrs[e.Link] = append(commitErrs[e.Link], linkEv{e.Seq, e.TO})
+				commitErrs[e.Link] = append(commitErrs[e.Link], linkEv{e.Seq, e.TO,
+					strings.Contains(e.Txt, "gob: decoding into local type") || strings.Contains(e.Txt, "use of closed network connection")})
+				if e.Link != "" {
+					closes[e.Link] = append(closes[e.Link], closeEv{e.Seq, e.Cls, e.TO})
+				}
 			case "precommit-neterr":
 				st.PreNetErr++
+				closes[e.Link] = append(closes[e.Link], closeEv{e.Seq, e.Cls, e.TO})
 			case "write-neterr":
 				st.WriteNetErr++
+				closes[e.Link] = append(closes[e.Link], closeEv{e.Seq, e.Cls, e.TO})
 			case "dial-fail":
 				st.DialFail++
 			case "h6":
@@ -425,36 +441,55 @@ sendersChecked:
 				}
 				last = wantPos[id]
 			}
-			detail := map[string]any{"sender": s, "receiver": r, "sent_committed": trimIDs(want), "recv_committed": trimIDs(gotIDs)}
+			link := fmt.Sprintf("%d>%d", s, r)
+			detail := map[string]any{"sender": s, "receiver": r, "sent_committed": trimIDs(want), "recv_committed": trimIDs(gotIDs),
+				"sender_side_timeouts_on_link": closes[link]}
 			if len(lost) > 0 {
 				if complete {
 					detail["lost"] = trimIDs(lost)
-					addK("message-lost", fmt.Sprintf("link %d>%d: %d committed message(s) never obtained by the receiver after quiescence and drain, first %v", s, r, len(lost), lost[0]), detail)
+					addK("message-lost", fmt.Sprintf("link %s: %d committed message(s) never obtained by the receiver after quiescence and drain, first %v", link, len(lost), lost[0]), detail)
 				} else {
-					problems = append(problems, fmt.Sprintf("link %d>%d misses %d messages but the run did not reach quiescence+drain", s, r, len(lost)))
+					problems = append(problems, fmt.Sprintf("link %s misses %d messages but the run did not reach quiescence+drain", link, len(lost)))
 				}
 			}
 			if reordered {
 				detail["first_out_of_order"] = firstBad
-				addK("reordered", fmt.Sprintf("link %d>%d: receiver's committed sections obtained %v before an earlier-sent message", s, r, firstBad), detail)
+				// epoch of a message = number of times the sender itself had abandoned a connection of this link
+				// (after one of its own timeouts) before the message was handed to the network
+				epoch := func(id MID) int {
+					t := written[id]
+					if atCommit {
+						t = secs[id[0]][id[1]].cd // a batch whose commit was resent travels (also) on the last connection
+					}
+					n := 0
+					for _, ce := range closes[link] {
+						if ce.Seq < t {
+							n++
+						}
+					}
+					return n
+				}
+				key, desc := classifyReorder(c, link, dedup, wantPos, epoch, firstBad)
+				addK(key, desc, detail)
 			}
 			if len(dups) > 0 {
-				key, desc := classifyDup(c, s, r, want, gotIDs, dups, cnt, func(sec int) (int64, int64) { return secs[s][sec].cp, secs[s][sec].cd },
-					func(lo, hi int64) int {
-						n := 0
-						for _, le := range commitErrs[fmt.Sprintf("%d>%d", s, r)] {
+				key, desc := classifyDup(c, s, r, gotIDs, dups, cnt, func(sec int) (int64, int64) { return secs[s][sec].cp, secs[s][sec].cd },
+					func(lo, hi int64) (timeouts, desyncs int) {
+						for _, le := range commitErrs[link] {
 							if le.timeout && le.seq > lo && le.seq < hi {
-								n++
+								timeouts++
 							}
 						}
-						return n
+						if t, ok := stragglers(evs)[s]; ok {
+							for _, le := range commitErrs[""] { // gob errors carry no address: attributed by the commit window
+								if le.desync && le.seq > lo && le.seq < hi && le.seq > t {
+									desyncs++
+								}
+							}
+						}
+						return
 					}, batches)
 				detail["duplicated"] = trimIDs(dups)
-				var ce []int64
-				for _, le := range commitErrs[fmt.Sprintf("%d>%d", s, r)] {
-					ce = append(ce, le.seq)
-				}
-				detail["commit_phase_timeouts_on_link_at"] = ce
 				st.DupBatches++
 				addK(key, desc, detail)
 			}
@@ -572,52 +607,87 @@ func wholeRuns(run, full []MID) bool {
 }
 
 // classifyDup decides whether the duplicates on link s>r have exactly the shape of the known defect:
-// every duplicated message belongs to a batch that was delivered n >= 2 times as a whole, the copies directly
-// follow each other on the link, and the sender logged at least n-1 network *timeouts* in the commit phase of that
-// very section on that very link (it then redialled and resent the batch although the first connection's handler
-// had already accepted the commit). Anything else is an unexplained duplication.
-func classifyDup(c *Case, s, r int, want, got, dups []MID, cnt map[MID]int, window func(sec int) (int64, int64),
-	timeoutsIn func(lo, hi int64) int, batches map[batchID][]MID) (key, desc string) {
+// the link's committed sequence splits into whole batches; every batch that occurs n >= 2 times does so as n
+// complete copies (a copy may trail behind later batches: it comes from the first connection's handler, which
+// is still alive); the sender logged at least n-1 network *timeouts* in the commit phase of that very section on
+// that very link (after each it redialled and resent the batch although the earlier connection's handler had
+// already been handed the commit); and with the later copies removed the link equals what was sent.
+// Anything else is an unexplained duplication.
+func classifyDup(c *Case, s, r int, got, dups []MID, cnt map[MID]int, window func(sec int) (int64, int64),
+	errsIn func(lo, hi int64) (timeouts, desyncs int), batches map[batchID][]MID) (key, desc string) {
 	generic := func(why string) (string, string) {
 		return "duplicated", fmt.Sprintf("link %d>%d: message %v obtained %d times by committed sections (%s)", s, r, dups[0], cnt[dups[0]], why)
 	}
 	if c.Kind != "tcp" {
 		return generic("no resend protocol on this kind of link")
 	}
-	// link sequence with immediately repeated whole batches collapsed must equal what was sent
-	var collapsed []MID
-	i := 0
-	explained := map[batchID]int{}
-	for i < len(got) {
+	copies := map[batchID]int{}
+	for i := 0; i < len(got); {
 		id := got[i]
 		b := batchID{id[0], id[1], id[2], r}
 		full := batches[b]
 		if len(full) == 0 || i+len(full) > len(got) || !sameSeq(got[i:i+len(full)], full) {
 			return generic("copies are not whole batches")
 		}
-		collapsed = append(collapsed, full...)
+		copies[b]++
 		i += len(full)
-		for i+len(full) <= len(got) && sameSeq(got[i:i+len(full)], full) {
-			explained[b]++
-			i += len(full)
-		}
-	}
-	if !sameSeq(collapsed, want) {
-		return generic("after removing adjacent whole-batch copies the link still differs from what was sent")
-	}
-	for b, extra := range explained {
-		lo, hi := window(b.Sec)
-		if n := timeoutsIn(lo, hi); n < extra {
-			return generic(fmt.Sprintf("batch of section %d delivered %d extra times but the sender logged only %d commit-phase timeouts on the link", b.Sec, extra, n))
-		}
 	}
 	var secsDup []int
-	for b := range explained {
+	viaDesync := false
+	for b, n := range copies {
+		if n < 2 {
+			continue
+		}
+		lo, hi := window(b.Sec)
+		t, d := errsIn(lo, hi)
+		if t+d < n-1 {
+			return generic(fmt.Sprintf("batch of section %d delivered %d times but the sender logged only %d commit-phase timeouts on the link", b.Sec, n, t))
+		}
+		if t < n-1 {
+			viaDesync = true
+		}
 		secsDup = append(secsDup, b.Sec)
 	}
 	sort.Ints(secsDup)
+	if viaDesync {
+		return "batch-duplicated-after-commit-disturbed-by-straggling-precommit",
+			fmt.Sprintf("link %d>%d: the whole batch of section(s) %v was delivered more than once; a pre-commit handshake that outlived its aborted attempt (IncMap.PreCommit does not wait for it) used the connection concurrently (acks out of step / connection closed under Commit), Commit got a non-timeout error, redialled and resent the batch", s, r, secsDup)
+	}
 	return "batch-duplicated-after-commit-ack-timeout",
-		fmt.Sprintf("link %d>%d: the whole batch of section(s) %v was delivered twice; the sender's read of the commit ack timed out, it redialled and resent the batch although the first connection's handler had already accepted the commit", s, r, secsDup)
+		fmt.Sprintf("link %d>%d: the whole batch of section(s) %v was delivered more than once; the sender's read of the commit ack timed out, it redialled and resent the batch although the earlier connection's handler had already been handed the commit", s, r, secsDup)
+}
+
+// classifyReorder decides whether a reordering on a link has exactly the shape of the known defect: the sender
+// abandoned a connection after one of its own timeouts while that connection's handler still held accepted
+// messages; the handler of the next connection then published newer messages first. Structurally: the first
+// deliveries on the link are a merge of the per-connection streams, each of which is in the order sent. A
+// reordering *within* the messages of one connection is something else.
+func classifyReorder(c *Case, link string, dedup []MID, wantPos map[MID]int, epoch func(MID) int, firstBad MID) (key, desc string) {
+	generic := func(why string) (string, string) {
+		return "reordered", fmt.Sprintf("link %s: receiver's committed sections obtained %v before an earlier-sent message (%s)", link, firstBad, why)
+	}
+	if !c.mailboxKind() {
+		return generic("no connections on this kind of link")
+	}
+	lastIn := map[int]int{}
+	epochs := map[int]bool{}
+	for _, id := range dedup {
+		e := epoch(id)
+		epochs[e] = true
+		if l, ok := lastIn[e]; ok && wantPos[id] < l {
+			return generic(fmt.Sprintf("messages sent over the same connection (the link's connection #%d) changed order", e))
+		}
+		lastIn[e] = wantPos[id]
+	}
+	if len(epochs) < 2 {
+		return generic("the sender never abandoned a connection of this link")
+	}
+	if c.Kind == "tcp" {
+		return "batch-overtaken-after-sender-timeout-redial",
+			fmt.Sprintf("link %s: committed batch %v was published by an abandoned connection's handler after batches the sender sent later over a new connection (it had redialled after one of its own timeouts)", link, firstBad[:2])
+	}
+	return "message-overtaken-after-write-timeout-redial",
+		fmt.Sprintf("link %s: message %v, still held by an abandoned connection's handler, was overtaken by messages the sender sent later over a new connection (it had redialled after a write timeout)", link, firstBad[:2])
 }
 
 func trimIDs(ids []MID) any {
@@ -638,6 +708,92 @@ func trimReads(stream []readRec, i, j int) []MID {
 	var out []MID
 	for _, x := range stream[lo:hi] {
 		out = append(out, x.id)
+	}
+	return out
+}
+
+// classifyCrash recognises, in the history of a child that died with a panic, the shape of the known IncMap
+// defect: IncMap.PreCommit returns as soon as ONE element's pre-commit fails, so the pre-commit handshake of
+// another destination keeps running while the context aborts and retries the section; when that straggler then
+// times out it closes and nils the connection the retry is using, and the retry's PreCommit/Commit goroutine
+// panics. Structure looked for: the panic comes from a tcpMailboxesRemote goroutine, and some sender had an
+// attempt that wrote to >= 2 destinations and was aborted after a pre-commit timeout on one of its links.
+func classifyCrash(c *Case, evs []Ev, out string) (key string, ok bool) {
+	if c.Kind == "single" && strings.Contains(out, "panic: can't abort SingleOutputChan") {
+		// known shape: the abort that panicked was caused by the resource's own write timeout (the harness
+		// aborts sections of this kind only before the send, when the resource is not part of the attempt)
+		last := map[string]string{}
+		for _, e := range evs {
+			if strings.HasPrefix(e.P, "S") && (e.K == "werr" || e.K == "w" || e.K == "fault" || e.K == "att") {
+				last[e.P] = e.K
+			}
+		}
+		for _, k := range last {
+			if k == "werr" {
+				return "C06:single:process-crash:own-write-timeout-abort-panics", true
+			}
+		}
+		return "", false
+	}
+	if c.Kind != "tcp" {
+		return "", false
+	}
+	remote := strings.Contains(out, "tcpMailboxesRemote") &&
+		(strings.Contains(out, "no connection available while doing") || strings.Contains(out, "nil pointer dereference"))
+	// the straggler nils the connection in the middle of the retried attempt: the next write redials but does not
+	// send the begin record again, and the receiver's handler panics
+	local := strings.Contains(out, "tcpMailboxesLocal") && strings.Contains(out, "must always start with tcpMailboxBegin")
+	if !remote && !local {
+		return "", false
+	}
+	// some sender must have left a straggler behind before the crash (its effects - stolen or surplus acks, a
+	// connection closed at an arbitrary later moment - outlast the section in which it was created)
+	if len(stragglers(evs)) > 0 {
+		return "C06:tcp:process-crash:precommit-outlives-aborted-attempt-through-incmap", true
+	}
+	return "", false
+}
+
+// stragglers returns, per sender, the sequence number of the first abort of an attempt that had written to >= 2
+// destinations and saw a pre-commit network error on one of its links: from then on a pre-commit goroutine of
+// the other destination may still be running (IncMap.PreCommit returned without waiting for it).
+func stragglers(evs []Ev) map[int]int64 { return stragglerAborts(evs, false) }
+
+// stragglersLast: the same, but the LAST such abort per sender.
+func stragglersLast(evs []Ev) map[int]int64 { return stragglerAborts(evs, true) }
+
+func stragglerAborts(evs []Ev, last bool) map[int]int64 {
+	type att struct{ s, sec, att int }
+	out := map[int]int64{}
+	dests := map[att]map[int]bool{}
+	preErr := map[att]bool{}
+	cur := map[int]att{} // sender -> attempt in flight
+	for _, e := range evs {
+		if strings.HasPrefix(e.P, "S") {
+			s := 0
+			fmt.Sscanf(e.P[1:], "%d", &s)
+			a := att{s, e.Sec, e.Att}
+			switch e.K {
+			case "att":
+				cur[s] = a
+			case "w":
+				if dests[a] == nil {
+					dests[a] = map[int]bool{}
+				}
+				dests[a][e.To] = true
+			case "ab":
+				if _, seen := out[s]; (last || !seen) && preErr[a] && len(dests[a]) >= 2 {
+					out[s] = e.Seq
+				}
+			}
+		}
+		if e.K == "log" && e.Cls == "precommit-neterr" && e.Link != "" {
+			s := 0
+			fmt.Sscanf(e.Link, "%d>", &s)
+			if a, ok := cur[s]; ok {
+				preErr[a] = true
+			}
+		}
 	}
 	return out
 }
